@@ -61,10 +61,7 @@ func cmdFn(args []string) {
 			} else {
 				r = eng.VerifyFunc(key)
 			}
-			var covers []*Obligation
-			if r.Cover != nil {
-				covers = append(covers, r.Cover)
-			}
+			covers := r.Covers
 			dischargeAll(r.Obligations, covers, cfg)
 			np := 0
 			for _, o := range r.Obligations {
